@@ -273,6 +273,9 @@ pub fn explore(case: &SchedCase, prep: &State, cfg: &ExploreCfg) -> CaseResult
         snapshots: cfg.snapshots,
         track_access: false,
         monitor,
+        // early-return cases (damaged state files): only termination is judged, the caller's
+        // view of the workspace is not compared, so the observation need not be ordered
+        observe: !case.name.starts_with("damaged-"),
     };
     let por = cfg.por;
     let queue = Arc::new((Mutex::new(Queue { stack: vec![vec![]], known: Default::default(), inflight: 0 }), Condvar::new()));
@@ -467,7 +470,7 @@ pub fn run_schedule(case: &SchedCase, prep: &State, or: &Oracles, c03: bool, cho
 {
     let rules = case.sc.variants[prep.variant].clone();
     let monitor = if c03 { Some(c03_monitor(&rules, &prep.fs)) } else { None };
-    let rc = RunCfg { clock: ClockModel::Strict, yields: true, shared: Arc::new(BTreeSet::new()), snapshots: false, track_access: false, monitor };
+    let rc = RunCfg { clock: ClockModel::Strict, yields: true, shared: Arc::new(BTreeSet::new()), snapshots: false, track_access: false, monitor, observe: !case.name.starts_with("damaged-") };
     let case = case.clone();
     let prep = prep.clone();
     let or = or.clone();
@@ -673,10 +676,31 @@ pub fn failure_cases(tier: &str) -> Vec<SchedCase>
     v
 }
 
+/// damaged state files: build must still return (an error value), never hang or panic
+pub fn damage_cases(_tier: &str) -> Vec<SchedCase>
+{
+    let mut v = vec![];
+    let chain3 = sc_chain3();
+    let diamond = sc_diamond();
+    let multi = sc_multi();
+    for (sc, label, targets) in [(&chain3, "chain3", vec!["a", "b", "c"]), (&diamond, "diamond", vec!["l", "r", "top"]), (&multi, "multi", vec!["t1", "c1", "c2"])]
+    {
+        for t in targets
+        {
+            v.push(mk(&format!("damaged-history/{}/{}/build", label, t), sc, vec![b(None), Op::CorruptHistory { target: t.to_string() }], b(None)));
+        }
+    }
+    v.push(mk("damaged-table/diamond/build", &diamond, vec![b(None), Op::CorruptTable], b(None)));
+    v.push(mk("damaged-table/diamond/clean", &diamond, vec![b(None), Op::CorruptTable], c(None)));
+    v.push(mk("damaged-history/chain3/c/edit+build", &chain3, vec![b(None), e("s", 1), Op::CorruptHistory { target: "c".to_string() }], b(None)));
+    v
+}
+
 pub fn case_by_name(name: &str) -> Option<SchedCase>
 {
     let mut all = success_cases("thorough");
     all.extend(failure_cases("thorough"));
+    all.extend(damage_cases("thorough"));
     all.into_iter().find(|c| c.name == name)
 }
 
@@ -703,7 +727,7 @@ pub fn outcomes_json(r: &CaseResult) -> Value
 
 pub fn debug_trace(case: &SchedCase, prep: &State)
 {
-    let rc = RunCfg { clock: ClockModel::Strict, yields: true, shared: Arc::new(BTreeSet::new()), snapshots: false, track_access: false, monitor: None };
+    let rc = RunCfg { clock: ClockModel::Strict, yields: true, shared: Arc::new(BTreeSet::new()), snapshots: false, track_access: false, monitor: None, observe: true };
     let case2 = case.clone();
     let prep2 = prep.clone();
     struct D { job: Option<Job>, out: Option<Outcome> }
